@@ -336,6 +336,33 @@ def omit_rt(x, i1, i2, i3, i4, i5, i6, i7, js):
             if type(back.flag) is not type(obj.flag) or type(back.n) is not type(obj.n) or type(back.z) is not type(obj.z): return False
     return True
 ''')
+    mo.pre('''
+from adaptix import NameStyle
+def _ws_default(): return [0]
+@dataclasses.dataclass
+class OF2:
+    soft_: Optional[int] = 10                  # the FIRST field is optional, its key differs from its id, its default is not None
+    hard: Optional[int] = None
+    ws: Optional[List[int]] = dataclasses.field(default_factory=_ws_default)      # a factory without a literal form
+    big_name: Optional[str] = "d"
+    a: int = 0
+RECIPES2 = ([], [name_mapping(OF2, omit_default=True)], [name_mapping(OF2, name_style=NameStyle.CAMEL)], [name_mapping(OF2, omit_default=True, map={"soft_": ("m", "s"), "ws": ("m", "w")})])
+ORS2 = [six_retorts(rc) for rc in RECIPES2]
+OLD2 = [{k: r.get_loader(OF2) for k, r in rs.items()} for rs in ORS2]
+ODP2 = [{k: r.get_dumper(OF2) for k, r in rs.items()} for rs in ORS2]
+def first_optional_rt(x, i1, i2, i3, i4):
+    obj = OF2(soft_=[None, 10, 0, x][pick(i1, 4)], hard=[None, 0, x][pick(i2, 3)], ws=[None, [], [0], [x]][pick(i3, 4)], big_name=[None, "d", ""][pick(i4, 3)], a=x)
+    for rc in range(len(RECIPES2)):
+        for k in ORS2[rc]:
+            back = OLD2[rc][k](ODP2[rc][k](obj))
+            if back != obj: return False
+            if type(back.soft_) is not type(obj.soft_) or type(back.ws) is not type(obj.ws): return False
+    return True
+''')
+    mo.ob("first_optional_rt", "x: int, i1: int, i2: int, i3: int, i4: int", "return first_optional_rt(x, i1, i2, i3, i4)",
+          pre=["0 <= i1 < 4 and 0 <= i2 < 3 and 0 <= i3 < 4 and 0 <= i4 < 3"], timeout=tmo,
+          family="round trip of a model whose first field is optional with a non-None default and a key that differs from its id; factory default without a literal form",
+          bounds="5 defaulted fields x pooled values (None, the default, falsy, symbolic int); 4 recipes (plain, omit_default, camelCase, nested paths); 6 modes")
     for sl, pre in (("containers", "i4 == 1 and i5 == 1 and i7 == 0"), ("scalars", "i1 == 1 and i2 == 1 and i6 == 1"), ("mixed", "i1 == i2 and i5 == i7 and i3 == i6")):
         mo.ob(f"omit_default_rt_{sl}", "x: int, i1: int, i2: int, i3: int, i4: int, i5: int, i6: int, i7: int", "return omit_rt(x, i1, i2, i3, i4, i5, i6, i7, False)",
               pre=["0 <= i1 < 4 and 0 <= i2 < 4 and 0 <= i3 < 4 and 0 <= i4 < 3", "0 <= i5 < 3 and 0 <= i6 < 4 and 0 <= i7 < 3", pre], timeout=tmo,
